@@ -276,18 +276,23 @@ def reobserve_hangs(rep, results, byid, stats):
         if c["kind"] == "grid":
             if "fname" not in r:
                 continue                             # a lost slice: Machinery in process()
-            again.append(dict(c, id=nid, vecs=[r["args"]], only=r["fname"], form=r["form"]))
+            again.append(dict(c, id=nid, vecs=[r["args"]], only=r["fname"], form=r["form"], again=True))
         else:
-            again.append(dict(c, id=nid))
+            again.append(dict(c, id=nid, again=True))
         slot[nid] = idx
     if not again:
         return results
-    if len(again) > 64:                              # many hangs are not an accident of the scheduler: the first 64 are observed again
-        again = again[:64]
-        slot = {k: v for k, v in slot.items() if k < 64}
+    if len(again) > 32:                              # many hangs are not an accident of the scheduler: the first 32 are observed again
+        again = again[:32]
+        slot = {k: v for k, v in slot.items() if k < 32}
     stats["reobserved"] = stats.get("reobserved", 0) + len(again)
     rep.notes["reobserved_after_watchdog"] = stats["reobserved"]
-    for r2 in engine.run_cases(rep.pid, again, driver=DRIVER, timeout=3000, tag="eng_again"):
+    # one child per group of at most two cases (engine.run_cases gives a short list a single child)
+    from concurrent.futures import ThreadPoolExecutor
+    groups = [again[k::16] for k in range(16) if again[k::16]]
+    with ThreadPoolExecutor(len(groups)) as ex:
+        rounds = list(ex.map(lambda kg: engine.run_cases(rep.pid, kg[1], driver=DRIVER, timeout=3000, tag="eng_again_%d" % kg[0]), enumerate(groups)))
+    for r2 in (r for rs in rounds for r in rs):
         if "discovered" in r2:
             continue
         idx = slot[r2["id"]]
